@@ -89,6 +89,8 @@ let () =
   let oc = stdout in
   let w = ref (init_world (n_of_int 1024) None) in
   let conc_threads = ref [] in
+  let pol_threads = ref [] in
+  let pol_scans = ref [] in
   let srv = ref (new_server N0) in
   let dump () =
     let st = !w.w_store in
@@ -155,6 +157,51 @@ let () =
       | ["PROBE"; c] ->
           Printf.fprintf oc "SERVED %s %d\n" c (if mem_nat (nat_of_int (int_of_string c)) !srv.sv_active then 1 else 0)
       | "TH" :: _ :: _ -> conc_threads := !conc_threads @ [line]
+      | "MOPS" :: _ -> ()   (* the memcache-level commands: for replays on the implementation *)
+      | "PTH" :: _ :: _ -> pol_threads := !pol_threads @ [line]
+      | ["PSCANS"; l] ->
+          pol_scans := if l = "none" then [] else
+            List.map (fun ks -> if ks = "-" then [] else List.map bytes_of_hex (split_on ',' ks)) (split_on ';' l)
+      | ["PRUN"; sched] ->
+          (* concurrent window over the store behind the random eviction policy *)
+          let st = !w.w_store in
+          let now = st.s_now in
+          let limit = match st.s_limit with Some l -> Z.of_N l | None -> failwith "PRUN without a memory limit" in
+          let rcd k v f ttl cas = ignore k; { r_ts = N0; r_cas = n_of_string cas; r_flags = n_of_string f;
+                                              r_ttl = n_of_string ttl; r_val = bytes_of_hex v } in
+          let parse_op (t : string) : pop =
+            match split_on ':' t with
+            | ["get"; k] -> PoGet (bytes_of_hex k)
+            | ["set"; k; v; f; ttl; cas] -> PoSet (bytes_of_hex k, rcd k v f ttl cas)
+            | ["del"; k; cas] -> PoDel (bytes_of_hex k, n_of_string cas)
+            | ["flush"; d] -> PoFlush (n_of_string d)
+            | _ -> failwith ("bad policy op: " ^ t) in
+          let threads = List.map (fun l ->
+            match split_on ' ' l with
+            | ["PTH"; _; ops] when ops <> "" -> new_gthread (list_client (List.map parse_op (split_on '|' ops)))
+            | ["PTH"; _; _] | ["PTH"; _] -> new_gthread (list_client [])
+            | _ -> failwith "bad PTH line") !pol_threads in
+          pol_threads := [];
+          let sched = if sched = "-" then [] else List.map (fun x -> nat_of_int (int_of_string x)) (split_on ',' sched) in
+          let (ts, sh) = prun_sched now limit sched threads
+              { p_mem = st.s_mem; p_cas = st.s_cas; p_usage = Z.of_N st.s_usage; p_oracle = !pol_scans } in
+          pol_scans := [];
+          let show (r : pores) = match r with
+            | PGetR (ROk r) -> Printf.sprintf "hit:%s:%s:%s" (hex_of_bytes r.r_val) (string_of_n r.r_flags) (string_of_n r.r_cas)
+            | PGetR (RErr e) -> Printf.sprintf "err:%s" (string_of_n (cerr_code e))
+            | PSetR (ROk c) -> Printf.sprintf "ok:%s" (string_of_n c)
+            | PSetR (RErr e) -> Printf.sprintf "err:%s" (string_of_n (cerr_code e))
+            | PDelR (ROk _) -> "ok"
+            | PDelR (RErr e) -> Printf.sprintf "err:%s" (string_of_n (cerr_code e))
+            | PFlushR -> "ok"
+            | PFuel -> "out-of-fuel" in
+          List.iteri (fun i t ->
+            Printf.fprintf oc "PR %d %s\n" i (String.concat ";" (List.map show t.g_done))) ts;
+          (* the counter is a u64 in the implementation: a negative value shows as its wrap-around *)
+          let usage = match sh.p_usage with
+            | Zneg _ -> N.sub two64 (Z.to_N (Z.opp sh.p_usage))
+            | u -> Z.to_N u in
+          w := { !w with w_store = { st with s_mem = sh.p_mem; s_cas = sh.p_cas; s_usage = usage } }
       | ["RUN"; sched] ->
           (* concurrent window: threads' operations interleaved under the given schedule *)
           let st = !w.w_store in
